@@ -22,7 +22,7 @@ theorem beq_refl : ∀ n : GoNode, GoNode.beq n n = true
   | .slice a es => by simp [GoNode.beq, beqL_refl es]
   | .gomap a es => by simp [GoNode.beq, beqE_refl es]
   | .ptr a n => by simp [GoNode.beq, beq_refl n]
-  | .iface n => by simp [GoNode.beq, beq_refl n]
+  | .iface t n => by simp [GoNode.beq, beq_refl n]
   | .struct s fs => by simp [GoNode.beq, beqE_refl fs]
 theorem beqL_refl : ∀ l : List GoNode, beqL l l = true
   | [] => by simp [beqL]
@@ -54,7 +54,7 @@ theorem write_frame (a : Addr) (f : GoNode → GoNode) : ∀ n : GoNode, a ∉ a
       simp only [addrs, List.mem_cons, not_or] at h
       have hb : ¬ b = a := fun e => h.1 e.symm
       simp [write, hb, write_frame a f n h.2]
-  | .iface n, h => by
+  | .iface t n, h => by
       simp only [addrs] at h
       simp [write, write_frame a f n h]
   | .struct s fs, h => by
@@ -96,7 +96,7 @@ theorem write_imm_removes (a : Addr) (v : String) : ∀ n : GoNode, a ∉ addrs 
       · have := write_imm_removes a v n
         simp only [write, hb, if_false, addrs, List.mem_cons, not_or]
         exact ⟨fun e => hb e.symm, this⟩
-  | .iface n => by
+  | .iface t n => by
       have := write_imm_removes a v n
       simpa [write, addrs] using this
   | .struct s fs => by
@@ -186,6 +186,7 @@ theorem copyNode_ok (spec : Spec) : ∀ (n : GoNode) (m : Mode) (k : Addr),
       | freshMap m' => simp [safe] at hs
       | recur T => simp [safe] at hs
       | viaPtrRec T => simp [safe] at hs
+      | dyn => simp [safe] at hs
   | .gomap a es, m, k, hs, hb => by
       cases m with
       | byValue => simp [safe, addrs] at hs
@@ -207,6 +208,7 @@ theorem copyNode_ok (spec : Spec) : ∀ (n : GoNode) (m : Mode) (k : Addr),
       | freshSlice m' => simp [safe] at hs
       | recur T => simp [safe] at hs
       | viaPtrRec T => simp [safe] at hs
+      | dyn => simp [safe] at hs
   | .ptr a n, m, k, hs, hb => by
       cases m with
       | byValue => simp [safe, addrs] at hs
@@ -228,7 +230,8 @@ theorem copyNode_ok (spec : Spec) : ∀ (n : GoNode) (m : Mode) (k : Addr),
       | freshSlice m' => simp [safe] at hs
       | freshMap m' => simp [safe] at hs
       | recur T => simp [safe] at hs
-  | .iface n, m, k, hs, hb => by
+      | dyn => simp [safe] at hs
+  | .iface t n, m, k, hs, hb => by
       cases m with
       | byValue => simp only [copyNode_byValue]; exact copyOK_asis k (by simpa [safe] using hs)
       | shared => simp only [copyNode_shared]; exact copyOK_asis k (by simpa [safe] using hs)
@@ -237,6 +240,23 @@ theorem copyNode_ok (spec : Spec) : ∀ (n : GoNode) (m : Mode) (k : Addr),
       | freshMap m' => simp [safe] at hs
       | recur T => simp [safe] at hs
       | viaPtrRec T => simp [safe] at hs
+      | dyn =>
+          simp only [safe] at hs
+          cases hl : lookupTy spec.dyn t with
+          | none =>
+              simp only [hl] at hs
+              simp only [copyNode, hl]
+              exact copyOK_asis k (by simpa [addrs] using hs)
+          | some m' =>
+              simp only [hl] at hs
+              have hb' : ∀ x ∈ addrs n, x < k := fun x hx => hb x (by simpa [addrs] using hx)
+              obtain ⟨e1, e2, e3⟩ := copyNode_ok spec n m' k hs hb'
+              refine ⟨?_, ?_, ?_⟩
+              · simp only [copyNode, hl, erase, e1]
+              · simp only [copyNode, hl]; exact e2
+              · intro x hx
+                simp only [copyNode, hl, addrs] at hx ⊢
+                exact e3 x hx
   | .struct s fs, m, k, hs, hb => by
       cases m with
       | byValue => simp only [copyNode_byValue]; exact copyOK_asis k (by simpa [safe] using hs)
@@ -244,7 +264,7 @@ theorem copyNode_ok (spec : Spec) : ∀ (n : GoNode) (m : Mode) (k : Addr),
       | omitted => simp only [copyNode_omitted]; exact copyOK_omitted k (by simpa [safe] using hs)
       | recur T =>
           simp only [safe] at hs
-          cases hl : lookup spec T with
+          cases hl : lookup spec.structs T with
           | none => simp [hl] at hs
           | some ms =>
               simp only [hl] at hs
@@ -259,6 +279,7 @@ theorem copyNode_ok (spec : Spec) : ∀ (n : GoNode) (m : Mode) (k : Addr),
       | freshSlice m' => simp [safe] at hs
       | freshMap m' => simp [safe] at hs
       | viaPtrRec T => simp [safe] at hs
+      | dyn => simp [safe] at hs
 theorem copyL_ok (spec : Spec) : ∀ (l : List GoNode) (m : Mode) (k : Addr),
     safeL spec m l = true → (∀ a ∈ addrsL l, a < k) →
     CopyOKL l (copyL spec m l k).1 k (copyL spec m l k).2
